@@ -40,7 +40,8 @@ OutVerdict(c, q, expset) ==
      ELSE IF ToSet(pos) # expset THEN "missed_record"
      ELSE "ok"
 
-NodeLists(c) == LET N == DOMAIN c.segs IN {<<n>> : n \in N} \cup {<<n, m>> : n \in N, m \in N}
+(* (a session whose file repeats its records thousands of times - c.singles_only - asks for single nodes only) *)
+NodeLists(c) == LET N == DOMAIN c.segs IN {<<n>> : n \in N} \cup (IF c.singles_only THEN {} ELSE {<<n, m>> : n \in N, m \in N})
 V04(c) ==
   LET Q == c.queries \o c.fqueries      \* plain selections, then selections with --format
       judge(q) == OutVerdict(c, q, Select(c.segs, c.file, ToSet(q.ns)))
